@@ -474,7 +474,7 @@ def run_case(case, extra=None):
     world.preload()
     cap = case.get("step_cap", 20)
     nops = len(case["ops"])
-    wres = world.fork_call(world.run_history, case, timeout=cap * (nops + 2) + 60)
+    wres = world.fork_call(world.run_history, case, timeout=min(cap * (nops + 2) + 60, 12 * cap))
     out = {"kind": "history", "hashseed": os.environ.get("PYTHONHASHSEED")}
     if wres.get("status") != "done":
         out["outcome"] = "harness_error" if wres.get("status") == "harness_error" else "timeout"
